@@ -96,6 +96,7 @@ var ownReviewed = map[string]string{
 	"Client.conns|ConfigureClient|write":         "set-up before the client is published",
 	"Ctx.Request|(*Conn).writeRequest|read":      "under ctx.acquire(); released explicitly before sendPending",
 	"Ctx.Err|(*Ctx).resolve|read":                "channel value read for a send; Err is never reassigned after the pool constructor",
+	"Stream.ctx|(*serverConn).dropReported|read": "the stream came out of handlerDone after handlerStop was found closed: the loop that owned it is gone, its handler has returned, and the channel receive orders the access (call sites: rule request-ctx-handoff)",
 }
 
 func rootPrefixMatch(roots map[string]bool, want string) (bool, []string) {
